@@ -17,8 +17,8 @@ type Sp struct {
 // user is a string that RFC 8265 UsernameCaseMapped (width mapping, case
 // mapping, NFC) maps to the "plain" form; the "bad" ones are refused by it.
 var base = map[string]string{
-	"ua": "zo\u00eb",             // z o e-diaeresis (NFC)
-	"ub": "zo\u00eb@example.org", // the same local part as an e-mail address
+	"ua": "zo\u00eb\u03c3",             // z o e-diaeresis (NFC) sigma
+	"ub": "zo\u00eb\u03c3@example.org", // the same local part as an e-mail address
 	"ux": "mallory",
 }
 
@@ -37,8 +37,18 @@ func spell(canon, v string) string {
 	return ""
 }
 
+// twin replaces sigma / capital sigma by final sigma. strings.EqualFold puts the
+// three in one folding orbit, the PRECIS profiles map capital sigma to sigma
+// and keep final sigma apart: the twin is the name of a different account.
+func twin(s string) string {
+	return strings.NewReplacer("\u03c3", "\u03c2", "\u03a3", "\u03c2").Replace(s)
+}
+
 func (s Sp) String() string {
 	if c, ok := base[s.U]; ok {
+		if s.V == "fold" {
+			return twin(c)
+		}
 		if r := spell(c, s.V); r != "" {
 			return r
 		}
@@ -66,6 +76,13 @@ func spellingOf(str string) Sp {
 			}
 		}
 	}
+	for u, c := range base {
+		for _, v := range variants {
+			if t := twin(spell(c, v)); t != spell(c, v) && t == str {
+				return Sp{U: u, V: "fold"}
+			}
+		}
+	}
 	return Sp{U: "?", V: "?"}
 }
 
@@ -84,6 +101,11 @@ func authzid(sp Sp, az string) string {
 			return Sp{U: sp.U, V: "plain"}.String()
 		}
 		return sp.String() + "x"
+	case "fold": // fold-equal to the authcid as typed, but another account
+		if t := twin(sp.String()); t != sp.String() {
+			return t
+		}
+		return base["ua"] + "x"
 	case "other": // another user
 		if sp.U == "ua" {
 			return base["ub"]
